@@ -35,7 +35,7 @@ ASSUMPTIONS = [
 REQUIRED_COUNTERS = [
     "c16.outcome.value", "c16.outcome.raised.IndexError", "c16.outcome.raised.TypeError",
     "c16.class.spmatrix", "c16.class.sparse", "c16.class.spdiag", "c16.class.alias", "c16.class.getitem1",
-    "c16.class.getitem2", "c16.class.setitem1", "c16.class.setitem2", "c16.class.binop", "c16.class.inplace",
+    "c16.class.getitem2", "c16.class.setitem1", "c16.class.setitem2", "c16.class.binop", "c16.class.inplace", "c16.inplace-dense-lhs-sparse-rhs",
     "c16.class.unary", "c16.class.V-assign", "c16.class.attr-read", "c16.class.size", "c16.class.query",
     "c16.class.elementwise", "c16.class.base.axpy", "c16.class.base.gemv", "c16.class.base.gemm",
     "c16.class.base.syrk", "c16.class.base.symv",
@@ -425,8 +425,21 @@ def run(ctx):
 
         def g_inplace():
             x = pick(True) or pick()
-            xk = "sparse" if ls.ref[x].sp else "dense"
             op = rng.choice(["+=", "+=", "-=", "-=", "*=", "*=", "/=", "/=", "%="])
+            if rng.random() < 0.2 and pick(False):
+                # dense left-hand side: "A += B" with B sparse keeps A dense, so it is an allowed
+                # in-place operation and must modify the object that all aliases of A see
+                x = pick(False)
+                if rng.random() < 0.7:
+                    rx = ls.ref[x]
+                    y = splitc(rng, rx.m, rx.n, stc(rng))[0] if rng.random() < 0.7 else (pick(True) or "0")
+                    op = rng.choice(["+=", "-="])
+                    ctx.count("c16.operands.dense-sparse")
+                    ctx.count("c16.inplace." + op)
+                    ctx.count("c16.inplace-dense-lhs-sparse-rhs")
+                    do("%s %s %s" % (x, op, y), "inplace:%s:dense-sparse" % op)
+                    return
+            xk = "sparse" if ls.ref[x].sp else "dense"
             if op in ("/=", "%=", "*=") and rng.random() < 0.75:
                 y = rng.choice(["2", "-4", "0", "2.5", "0.0", "0.5", "(1+1j)", "matrix(2)", "matrix(0.5)", "matrix(2j)",
                                 "matrix([1.0, 2.0])", repr(rnum(rng, "d"))])
